@@ -518,6 +518,70 @@ def odd_byte_in_residues(rng, fmt):
     return b"".join(lines)
 
 
+def nul_line_adjacent(rng, fmt):
+    """a valid (mostly multi-block) file of a line-oriented format with lines made ONLY of NUL bytes, or of NUL bytes mixed with
+    blanks / tabs, placed ADJACENT to the lines of a block: above its first line, below its last, between two of its lines, in
+    place of one of its lines, in place of the blank separator, or at the same position of EVERY block (so that all blocks keep the
+    same number of lines).  esl_memspn(line, " \t") == n ("blank line") and esl_memtok(line, " \t") ("first token") must agree on
+    such lines (strchr() finds the terminating NUL of the delimiter string): the block readers rely on it."""
+    kind = rng.choice(["amino", "dna"])
+    n = rng.choice([1, 2, 2, 3, 5]); cpl = rng.choice([4, 7, 13]); nblk = rng.choice([1, 2, 2, 3])
+    alen = cpl * nblk - rng.choice([0, 0, 1]) if cpl * nblk > 1 else 1
+    a = rand_aln(rng, kind, n, max(alen, 1), gapchars="-", lower=False, maxname=8, namechars="abcdefghijklmnopqrstuvwxyz0123456789_")
+    if fmt == "selex" and rng.random() < 0.5:
+        annotate(rng, a, full=False); a.ss = a.ss if rng.random() < 0.5 else None
+    if fmt in ("stockholm", "pfam") and rng.random() < 0.4: annotate(rng, a)
+    nl = rng.choice(["\n", "\n", "\n", "\r\n"])
+    W = {"afa": lambda: w_afa(a, rng, nl, cpl), "a2m": lambda: w_a2m(a, rng, nl, cpl), "clustal": lambda: w_clustal(a, rng, nl, cpl),
+         "clustallike": lambda: w_clustal(a, rng, nl, cpl, like=True), "psiblast": lambda: w_psiblast(a, rng, nl, cpl),
+         "selex": lambda: w_selex(a, rng, nl, cpl), "phylip": lambda: w_phylip(a, rng, nl, cpl), "phylips": lambda: w_phylip(a, rng, nl, cpl, seq=True),
+         "stockholm": lambda: w_stockholm(a, rng, nl, cpl), "pfam": lambda: w_stockholm(a, rng, nl, pfam=True)}
+    lines = split_lines(W[fmt]().encode("latin-1"))
+    nlb = nl.encode()
+
+    def nul_line():
+        r = rng.random()
+        if r < 0.45: body = b"\x00" * rng.choice([1, 1, 2, 3, 8])
+        elif r < 0.9:
+            k = rng.choice([2, 3, 4, 6])
+            body = bytes(rng.choice([0, 0, 32, 9]) for _ in range(k))
+            if 0 not in body: body = body[:-1] + b"\x00"
+        else: body = rng.choice([b"\x00\r", b" \x00 \x0c", b"\x00\x0b", b"\t\x00"])
+        return body + nlb
+
+    def blank(l): return l.strip(b" \t\r\n") == b""
+    blocks, cur = [], []                          # maximal runs of non-blank lines (indices)
+    for i, l in enumerate(lines):
+        if blank(l):
+            if cur: blocks.append(cur); cur = []
+        else: cur.append(i)
+    if cur: blocks.append(cur)
+    if not blocks: return b"".join(lines)
+    op = rng.randrange(7)
+    ins = {}                                        # index -> lines inserted BEFORE that index
+    rep = {}                                        # index -> replacement
+    b = rng.choice(blocks)
+    if op == 0: ins[b[0]] = [nul_line()]                                   # above the first line of a block
+    elif op == 1: ins[b[-1] + 1] = [nul_line()]                            # below its last line
+    elif op == 2: ins[rng.choice(b[1:] or b)] = [nul_line()]               # between two of its lines
+    elif op == 3: rep[rng.choice(b)] = nul_line()                          # in place of one of its lines
+    elif op == 4:                                                            # in place of a blank separator (joins two blocks)
+        seps = [i for i, l in enumerate(lines) if blank(l)]
+        if seps: rep[rng.choice(seps)] = nul_line()
+        else: ins[b[0]] = [nul_line()]
+    elif op == 5:                                                            # at the same position of every block
+        off = rng.randrange(0, min(len(x) for x in blocks) + 1)
+        for x in blocks: ins[(x[0] + off) if off < len(x) else x[-1] + 1] = [nul_line()]
+    else:                                                                    # several, anywhere next to block lines
+        for _ in range(rng.choice([2, 3])):
+            x = rng.choice(blocks); ins.setdefault(rng.choice(x + [x[-1] + 1]), []).append(nul_line())
+    out = []
+    for i, l in enumerate(lines + [b""]):
+        out.extend(ins.get(i, []))
+        out.append(rep.get(i, l))
+    return b"".join(out)
+
+
 def earlystop_file(rng, fmt, T, exact=False):
     """alphabet guessing stops early once more than T (500 / 5000 / 50000) residues have been counted on whole lines: the first lines hold
     exactly T+1 (or T) DNA residues with all of A,C,G,T, everything after is protein-only text - the guess must not depend on it"""
